@@ -22,7 +22,7 @@ from tracelib import *
 PROP = "C20"
 LEVEL = "exploration"
 FLAVOUR = "plain"
-TIERS = {"quick": (500, 170), "thorough": (12000, 3300)}
+TIERS = {"quick": (300, 170), "thorough": (12000, 3300)}
 RULE_TEXT = ("one run = one generated document (promela or null datamodel, up to 3 nested invoked machines with explicit ids, many event names and string literals) "
              "transpiled by 2 live instances x 2 processes (ASLR on / off, different seeded heap warm-up) x 3 back-ends, plus interpretation of the document under one "
              "history with cache files off / cold / warm / stale / truncated / unwritable; non-trivial = at least two back-ends produced output and the interpretation "
@@ -46,13 +46,23 @@ class Context(object):
 
 
 def gen_doc(rp):
+    # the transformers' shared analysis is far from linear in the number of transitions (a 12 KB chart takes
+    # minutes): keep documents moderate so that a run stays a matter of seconds
+    for _ in range(6):
+        root = gen_doc1(rp)
+        if len(root.xml()) < 9000:
+            break
+    return root
+
+
+def gen_doc1(rp):
     dm = rp.choice(["promela", "promela", "null"])
-    root = p_c01.gen_chart(rp, dm, {"history": rp.random() < 0.5})
+    root = p_c01.gen_chart(rp, dm, {"history": rp.random() < 0.5, "par_p": 0.15})
     states = [e for e in root.walk() if e.tag == "state"]
     for n in range(rp.randint(0, 3)):
         if not states:
             break
-        child = p_c01.gen_chart(rp, dm, {"history": False}, max_states=4)
+        child = p_c01.gen_chart(rp, dm, {"history": False, "par_p": 0.0}, max_states=4)
         child.attrs["name"] = "kid%d" % n
         inv = El("invoke", {"type": "scxml", "id": "inv%d" % n})
         inv.add(El("content", children=[child]))
